@@ -670,7 +670,21 @@ pub fn suite_stacks(ctx: &mut Ctx) {
                     if !native && full.trace.iter().any(|x| matches!(x, Call::Replace(..))) {
                         ctx.violation("C08", &req, "hook without replace override saw a replace".to_string());
                     }
-                    if !native && matches!(stack, Stack::Replace | Stack::CompactReplace | Stack::ReplaceNoFinish) {
+                    // a hook lent as `&mut` must behave exactly like the owned hook, under the algorithm and under the adapters
+                    if let Some(owned) = match stack {
+                        Stack::MutRef => Some(Stack::None),
+                        Stack::ReplaceMutRef => Some(Stack::Replace),
+                        Stack::CompactReplaceMutRef => Some(Stack::CompactReplace),
+                        _ => None,
+                    } {
+                        let mut p = c.clone();
+                        p.stack = owned;
+                        let plain = run_case(&p);
+                        if plain.trace != full.trace {
+                            ctx.violation("C08", &req, format!("the hook lent as `&mut` received {} but the owned hook {}", proto::show_calls(&full.trace), proto::show_calls(&plain.trace)));
+                        }
+                    }
+                    if !native && matches!(stack, Stack::Replace | Stack::CompactReplace | Stack::ReplaceNoFinish | Stack::ReplaceMutRef | Stack::CompactReplaceMutRef) {
                         // default replace = delete then insert: compare with the native run
                         let mut nn = c.clone();
                         nn.native_replace = true;
@@ -887,6 +901,22 @@ pub fn run_script(stack: Stack, old: &[u32], new: &[u32], calls: &[Call], repair
                 let r = feed(&mut d, calls);
                 (r, d.into_inner().into_inner().trace)
             }
+            Stack::ReplaceMutRef => {
+                let mut h = h;
+                let r = {
+                    let mut d = Replace::new(&mut h);
+                    feed(&mut d, calls)
+                };
+                (r, h.trace)
+            }
+            Stack::CompactReplaceMutRef => {
+                let mut h = h;
+                let r = {
+                    let mut d = Compact::new(Replace::new(&mut h), &o[..], &n[..]);
+                    feed(&mut d, calls)
+                };
+                (r, h.trace)
+            }
             _ => {
                 let mut d = h;
                 let r = feed(&mut d, calls);
@@ -950,26 +980,36 @@ fn check_script(ctx: &mut Ctx, stack: Stack, old: &[u32], new: &[u32], calls: &[
         ctx.violation("C10", &req, e);
         return;
     }
+    if let Some(owned) = match stack {
+        Stack::ReplaceMutRef => Some(Stack::Replace),
+        Stack::CompactReplaceMutRef => Some(Stack::CompactReplace),
+        _ => None,
+    } {
+        let plain = run_script(owned, old, new, &with_fin, false);
+        if plain.trace != out.trace {
+            ctx.violation("C10", &req, format!("the adapters over a hook lent as `&mut` deliver {} but over the owned hook {}", proto::show_calls(&out.trace), proto::show_calls(&plain.trace)));
+        }
+    }
     let (d0, i0, _) = oracle::cost(calls);
     let (d1, i1, _) = oracle::cost(&res);
     if d0 != d1 || i0 != i1 {
         ctx.violation("C10", &req, format!("deleted/inserted items changed from {}/{} to {}/{}", d0, i0, d1, i1));
     }
     match stack {
-        Stack::CompactReplace => {
+        Stack::CompactReplace | Stack::CompactReplaceMutRef => {
             if let Err(e) = oracle::normal_form(old, new, 0, 0, &res) {
                 ctx.violation("C10", &req, e.clone());
                 ctx.violation("C09", &req, e);
             }
         }
-        Stack::Replace => {
+        Stack::Replace | Stack::ReplaceMutRef => {
             if let Err(e) = oracle::carried_exact(r, &res) {
                 ctx.violation("C10", &req, format!("Replace alone lost exact carried indices: {}", e));
             }
         }
         _ => {}
     }
-    if stack != Stack::Replace {
+    if stack != Stack::Replace && stack != Stack::ReplaceMutRef {
         // model with the repair switch on
         let reqr = script_request(stack, old, new, &with_fin, true);
         let outr = run_script(stack, old, new, &with_fin, true);
@@ -999,7 +1039,7 @@ pub fn suite_script(ctx: &mut Ctx) {
             all_scripts(old, new, 0, 0, 0, &mut vec![], &mut out, cap);
             ctx.add("script.exhaustive_scripts", out.len() as u64);
             for s in &out {
-                for stack in [Stack::Replace, Stack::Compact, Stack::CompactReplace] {
+                for stack in [Stack::Replace, Stack::Compact, Stack::CompactReplace, Stack::ReplaceMutRef, Stack::CompactReplaceMutRef] {
                     check_script(ctx, stack, old, new, s);
                 }
             }
@@ -1038,7 +1078,7 @@ pub fn suite_script(ctx: &mut Ctx) {
             }
         }
         ctx.max("script.random_max_calls", s.len() as u64);
-        for stack in [Stack::Replace, Stack::Compact, Stack::CompactReplace] {
+        for stack in [Stack::Replace, Stack::Compact, Stack::CompactReplace, Stack::ReplaceMutRef, Stack::CompactReplaceMutRef] {
             check_script(ctx, stack, &old, &new, &s);
         }
     }
